@@ -1495,6 +1495,7 @@ class StorageBackendBase(StorageBackend, ABC):
         key: str,
         retry_on_none=False,
     ) -> bytes:
+        StorageBackend.check_metadata_key(key)
         # Metadata is not currently cached
         result = self._metadata_source.read_metadata(
             fn_with_arg_hash, key, retry_on_none=retry_on_none
@@ -1520,6 +1521,7 @@ class StorageBackendBase(StorageBackend, ABC):
     ):
         assert fn_with_arg_hash is not None
         if not self.read_only:
+            StorageBackend.check_metadata_key(key)
             if store_with_content_key:
                 self._metadata_source.write_metadata(
                     fn_with_arg_hash, key, bytes(), stored_with_data=True
